@@ -137,6 +137,8 @@ def one(ctx: Ctx, cs, pname=None, **over):
     ctx.mon('precondition_ok')
     ctx.cls(*sorted(doc.tags))
     y, exc = kpx.dumps(d)
+    # the same default export through ONE default ExportOptions object used for every document of the run
+    kpx.fixed_options_check(ctx, d, {}, y, exc, {'case_seed': cs, 'text': x})
     z, exc2 = kpx.dumps(d, encoding=kpx.Enc.eKern)
     if exc or exc2:
         ctx.violation('export-raises', f'export raised {exc or exc2}', case)
